@@ -11,6 +11,7 @@ import EvyV.Driver.TyDrv
 import EvyV.Driver.LexDrv
 import EvyV.Driver.LayoutDrv
 import EvyV.Driver.PrattDrv
+import EvyV.Driver.StmtDrv
 import EvyV.Gen.Shapes
 /-
 Line protocol driver (core-only, compiled as `lean_exe evyv`).
@@ -59,6 +60,7 @@ def handle (line : String) : String :=
   | "bcverify" :: rest => BcDrv.handleVerify rest
   | "symtab" :: rest => BcDrv.handleSymtab rest
   | "exprvm" :: rest => ExprDrv.handle rest
+  | "stmtvm" :: rest => StmtDrv.handle rest
   | ["shape", "writeAtomically"] => " ".intercalate (Gen.writeAtomically.map (·.1))
   | "envsplit" :: rest => EnvDrv.handleSplit rest
   | "verifychoice" :: rest => EnvDrv.handleVerify rest
